@@ -148,6 +148,15 @@ def run_case(case, rec):
     if comp > 8:
         rec.skip("all.equals-grundy-set", "component>8")
         return
+    try:
+        size = o2d.grundy_product_size(f["reg"], f["g"])
+    except o2d.Budget:
+        size = None
+    if size is None or size > 60000:
+        # the list is the cartesian product over components: several large groups make it
+        # (and the library's own memory use) explode - a reach limit, not a verdict
+        rec.skip("all.equals-grundy-set", "expected-list-larger-than-60000")
+        return
     _cur["last"] = None
     try:
         b.all_dot_brackets
